@@ -178,6 +178,10 @@ def enumerate_target(tg, rec, label, max_events=None):
     tg.reset()
 
 
+TARGET_NAMES = ["repodata.json", "repodata.json", "repodata.json.tmp", "repodata.tmp", "repodata.json.orig", "repodata.json.bak", "repodata",
+                "current_repodata.json.new", "r\u00e9podata.json", "repo data.json", ".repodata.json", "repodata.json~"]
+
+
 class Boom(Exception):
     pass
 
@@ -271,7 +275,7 @@ def repodata_target(lib, spec, rng, scratch, via_cli, big=False):
         trim("packages", 4)
         trim("packages.conda", 2)
     key = gkeys.from_seed_hex(gen["seed"])
-    path = os.path.join(scratch, "repodata.json")
+    path = os.path.join(scratch, rng.choice(TARGET_NAMES))
     original = json.dumps(doc).encode("utf-8")
     parsed = json.loads(original)
     expected = canonjson.canon(c11.expected_doc(parsed, key))
@@ -295,7 +299,7 @@ def gpg_target(lib, spec, rng, scratch, via_cli, stub, home):
     env = gmd.envelope(md)
     # a pre-existing signature by another key: must survive
     gmd.sign_env(env, [gkeys.key(0)], True, rng)
-    path = os.path.join(scratch, "root.json")
+    path = os.path.join(scratch, rng.choice(["root.json", "1.root.json", "root.json.tmp", "root.tmp", "root.orig", "root", "r\u00f6\u00f6t.json"]))
     original = json.dumps(env).encode("utf-8") if rng.random() < 0.5 else canonjson.canon(env)
     data = canonjson.canon(md)
     if stub:
@@ -375,7 +379,7 @@ def run_natural(spec, rec, lib):
     S = lib.signing
     key = gkeys.key(3)
     d = spec["scratch"]
-    path = os.path.join(d, "repodata.json")
+    path = os.path.join(d, random.Random(spec["seed"]).choice(TARGET_NAMES))
     kp = os.path.join(d, "key.txt")
     good = {"info": {}, "packages": {"a-1-0.tar.bz2": {"name": "a"}, "b-1-0.tar.bz2": {"name": "b"}}, "packages.conda": {"c-1-0.conda": {"name": "c"}},
             "signatures": {"a-1-0.tar.bz2": {"ab" * 32: {"signature": "cd" * 64}}}}
